@@ -43,7 +43,14 @@ def main():
             r = sh("cd %s && ./check %s quick" % (HERE, c), timeout=3000)
             red = ("VIOLATION property=%s" % c) in r.stdout
             clause = [l.strip()[:200] for l in r.stdout.split("\n") if l.strip().startswith("clause=")][:2]
-            res["checks"][c] = {"exit": r.returncode, "red": red, "clause": clause, "s": round(time.time() - t0, 1)}
+            foreign = {}
+            try:
+                with open(os.path.join(HERE, "evidence", c + ".json")) as f:
+                    foreign = json.load(f)["coverage"].get("other_property_symptoms_seen") or {}
+            except (OSError, ValueError, KeyError):
+                pass
+            res["checks"][c] = {"exit": r.returncode, "red": red, "clause": clause, "s": round(time.time() - t0, 1),
+                                "symptoms_attributed_to_other_properties": foreign}
             keep = os.path.join(d, "found-by-%s" % c)
             if red:
                 # keep one replay produced against the mutant as documentation
